@@ -9,6 +9,7 @@ import (
 	"sort"
 	"strconv"
 	"strings"
+	"time"
 )
 
 type ruleFn func(c *Ctx, r *Report)
@@ -25,6 +26,7 @@ func register(id, explanation string, rules ...ruleFn) {
 }
 
 var verbose *bool
+var loadStart time.Time
 
 func main() {
 	repo := flag.String("repo", "/repo", "repository working tree to analyse")
@@ -48,6 +50,7 @@ func main() {
 		*repo = abs
 	}
 
+	loadStart = time.Now()
 	c, err := loadRepo(*repo)
 	if err != nil {
 		fmt.Printf("ERROR loading %s: %v\n", *repo, err)
@@ -84,6 +87,7 @@ func main() {
 
 func runProp(c *Ctx, id, tier string, seed int64, verif, evid string, noEvidence, multi bool) (code int) {
 	r := newReport(id, tier, seed, verif)
+	r.start = loadStart // wall time includes loading and type-checking /repo
 	if noEvidence {
 		r.VerifDir = os.TempDir()
 	}
